@@ -1,16 +1,18 @@
 import Eliot.Properties.C18
 #print axioms LC.wrapper_transparent_partial
-#print axioms LC.wrapper_not_transparent_action_type
-#print axioms LC.wrapper_not_transparent_logger
-#print axioms LC.wrapper_not_transparent_serializers
+#print axioms LC.action_type_now_transparent
+#print axioms LC.logger_now_transparent
+#print axioms LC.serializers_now_transparent
+#print axioms LC.include_self_now_transparent
 #print axioms LC.wrapper_not_transparent_posonly_kwargs
 #print axioms LC.wrapper_not_transparent_posonly_keyword
-#print axioms LC.wrapper_not_transparent_include_self
 #print axioms LC.wrapper_transparent_false
 #print axioms LC.start_fields_are_bound_args_partial
 #print axioms LC.start_fields_not_bound_args_task_level
-#print axioms LC.start_fields_not_bound_args_logger_none
+#print axioms LC.start_fields_not_bound_args_action_type
+#print axioms LC.logger_none_now_logged
 #print axioms LC.start_fields_are_bound_args_false
+#print axioms LC.decorated_raises_only_type_error_or_body
 #print axioms LC.end_has_result_iff
 #print axioms LC.default_action_type
 #print axioms LC.bind_keys
